@@ -1,15 +1,24 @@
 (* C20 — optimising a universal generator set keeps the algebra and the set size.
    Proved for every n: any sequence of the loop's moves (each replaces a generator x by x.y for an entry (x, y) of
    list_connections) leaves the commutator closure and the number of generators unchanged, whatever the choices
-   (greedy score or random).  Termination of the retry loop and distinctness of the output are NOT consequences of
-   this and are explored per run (partial). *)
-From PauLie Require Import Pauli Sym ClSym Optimise OptimiseT.
+   (greedy score or random); and they keep an independent list (the optimiser starts from get_independents())
+   independent, so the output strings are pairwise distinct and none is the identity.  Termination of the retry loop
+   is NOT a consequence of this and is explored per run with a watchdog (partial). *)
+From PauLie Require Import Pauli Sym ClSym Optimise OptimiseT GraphDetT IndepT.
 
 Theorem C20_contractions_preserve : forall choices l,
   (forall p, ClS (fun g => In g l) p <-> ClS (fun g => In g (run_contractions l choices)) p) /\
   length (run_contractions l choices) = length l.
 Proof. exact run_contractions_cl. Qed.
 Print Assumptions C20_contractions_preserve.
+
+(* distinctness: independence (different selections of generators have different products) survives every contraction *)
+Theorem C20_contractions_keep_independence : forall choices l, independent l -> independent (run_contractions l choices).
+Proof. exact run_contractions_independent. Qed.
+Print Assumptions C20_contractions_keep_independence.
+Theorem C20_independent_strings_are_distinct : forall l, independent l -> NoDup l /\ ~ In pid l.
+Proof. exact independent_distinct. Qed.
+Print Assumptions C20_independent_strings_are_distinct.
 
 Theorem C20_connections_are_anticommuting_members : forall l x y,
   In (x, y) (list_connections l) -> In x l /\ In y l /\ anti x y = true.
